@@ -257,3 +257,13 @@ pub fn cfg(c: &Cfg) -> String {
         c.iter().map(block).collect::<Vec<_>>().join(" ")
     )
 }
+
+/// Immediate dominators as the implementation's dominator tree has them:
+/// `(idom I0 I1 ...)` with `-` for the entry block.
+pub fn idoms(c: &Cfg) -> String {
+    let parts: Vec<String> = c
+        .iter()
+        .map(|b| c.get_immediate_dominator(b).map(|d| d.index().to_string()).unwrap_or("-".to_string()))
+        .collect();
+    format!("(idom {})", parts.join(" "))
+}
